@@ -20,7 +20,7 @@ def gen_items(rng):
     items = []
     for _ in range(rng.randint(1, 6)):
         r = rng.random()
-        ind = '  ' * rng.randint(0, 2)
+        ind = '  ' * rng.randint(0, 2) if rng.random() < 0.85 else rng.choice(['\t', '\t\t', ' \t', '\t  '])   # tab indentation is valid policy
         name = rng.choice(['only', 'exclude'])
         args = rng.sample(WORDS, rng.randint(1, 3))
         if r < 0.4:
